@@ -462,10 +462,35 @@ func (w *World) nonNilByConstruction(v ssa.Value, blk *ssa.BasicBlock) bool {
 			}
 		}
 	case *ssa.MakeInterface:
+		// an interface around a nil pointer compares non-nil but is as unusable
+		// as nil: the pointer must be non-nil too
+		if _, isPtr := x.X.Type().Underlying().(*types.Pointer); isPtr {
+			return w.nonNilByConstruction(x.X, blk)
+		}
 		return true
 	case *ssa.Alloc:
 		return true
 	case *ssa.Extract:
+		if c, ok := x.Tuple.(*ssa.Call); ok {
+			// one result of a package function: that result is non-nil by
+			// construction on every normal return
+			if f := c.Call.StaticCallee(); f != nil && w.inPkg(f) && len(f.Blocks) > 0 && w.nonNilDepth <= 3 {
+				w.nonNilDepth++
+				all, any := true, false
+				for _, b := range f.Blocks {
+					if ret, ok := normalReturn(b); ok && x.Index < len(ret.Results) {
+						any = true
+						if !w.nonNilByConstruction(retVal(ret, x.Index), b) {
+							all = false
+						}
+					}
+				}
+				w.nonNilDepth--
+				if all && any {
+					return true
+				}
+			}
+		}
 		if ta, ok := x.Tuple.(*ssa.TypeAssert); ok && ta.CommaOk && x.Index == 0 {
 			// dominated by the ok edge
 			for _, u := range uses(ta) {
